@@ -66,4 +66,16 @@ def denseTemperature {β : Type} (sol : α → List β) (nrows lb ub : Nat) (t :
 `[nq + lb_i, nq + ub_i)` (temperatures) of every stored column -/
 def assemble {β : Type} (cols : List (List β)) (nq : Nat) (bounds : List (Nat × Nat)) : List (List (List β) × List (List β)) :=
   bounds.map fun (lb, ub) => (cols.map fun c => rows c lb ub, cols.map fun c => rows c (nq + lb) (nq + ub))
+
+/-- `numpy.searchsorted(ts, t)` (side = left) on an ascending list: number of leading entries `< t` -/
+def searchLeft (ts : List α) (t : α) : Nat := (ts.takeWhile fun x => decide (x < t)).length
+
+/-- `scipy.interpolate.interp1d(ts, Y)(t)` (linear, in-domain): with `hi = clip(searchsorted(ts, t), 1, n-1)`, `lo = hi - 1`:
+`slope · (t − ts[lo]) + Y[:, lo]`, `slope = (Y[:, hi] − Y[:, lo]) / (ts[hi] − ts[lo])`; `cols[i]` is the stored column of time `i` -/
+def lerp (ts : List α) (cols : List (List α)) (t : α) : List α :=
+  let n := ts.length
+  let hi := min (max (searchLeft ts t) 1) (n - 1)
+  let lo := hi - 1
+  let x0 := ts.getD lo (lit 0); let x1 := ts.getD hi (lit 0)
+  List.zipWith (fun y0 y1 => (y1 - y0) / (x1 - x0) * (t - x0) + y0) (cols.getD lo []) (cols.getD hi [])
 end Res
